@@ -47,6 +47,11 @@ pub struct Scenario {
     pub alloc_limit: usize,
     pub keep_feeding_after_error: bool,
     pub dim_cap: u32,
+    /// 0 = no pool; n > 0 = real rayon pool with n threads (used by C02)
+    #[serde(default)]
+    pub pool_threads: usize,
+    #[serde(default)]
+    pub force_wide: bool,
 }
 
 const FUZZ_DIR: &str = "/repo/crates/jxl-oxide-tests/tests/fuzz_findings";
@@ -228,7 +233,7 @@ pub fn generate(seed: u64, tier: Tier) -> Scenario {
         8 => rng.below(2_000_000) as usize,
         _ => rng.below(64 << 20) as usize,
     };
-    Scenario { bytes, origin, faults, delivery, steps, alloc_limit, keep_feeding_after_error: rng.chance(2, 3), dim_cap: 65536 }
+    Scenario { bytes, origin, faults, delivery, steps, alloc_limit, keep_feeding_after_error: rng.chance(2, 3), dim_cap: 65536, pool_threads: 0, force_wide: false }
 }
 
 pub fn digest(sc: &Scenario) -> u64 {
@@ -498,7 +503,8 @@ pub fn execute(seed: u64, sc: &Scenario, stats: &mut Stats) -> Result<(), Violat
         stats.fault(f);
     }
     let tracker = AllocTracker::with_limit(sc.alloc_limit);
-    let builder = || JxlImage::builder().pool(JxlThreadPool::none()).alloc_tracker(tracker.clone());
+    let pool = if sc.pool_threads > 0 { JxlThreadPool::rayon(Some(sc.pool_threads)) } else { JxlThreadPool::none() };
+    let builder = || JxlImage::builder().pool(pool.clone()).alloc_tracker(tracker.clone()).force_wide_buffers(sc.force_wide);
     let mut state;
     let mut outcomes: Vec<&'static str> = Vec::new();
     let mut feed_errors = 0u32;
